@@ -47,7 +47,7 @@ def plan(tier):
         return {"runs": 300000, "slice": 1500, "budget_s": 1500,
                 "slice_timeout_s": 600}
     return {"runs": 16000, "slice": 400, "budget_s": 120,
-            "slice_timeout_s": 200}
+            "slice_timeout_s": 600}
 
 
 PRESETS = {
